@@ -109,6 +109,27 @@ def design(chk: Check, pid: str, tier: str) -> None:
     b0 = small_board(r, 1, 0, seed() % 4)
     weak = [0, 35, 35, 35]
     if pid == 'C09':
+        # the primitives themselves (spec/PyThreading.tla), and the controlled
+        # primitives of the baton against the real CPython objects
+        pt = {'N': '5' if not quick else '4', 'G': '3'}
+        design_check(chk, 'PyThreading',
+                     tlc.cfg_text(specification='Spec', constants=pt,
+                                  invariants=['BarrierSafety', 'BarrierSync', 'BarrierShape',
+                                              'NoBarrierDeadlock'],
+                                  properties=['BarrierTermination']),
+                     'PyThreading: reusable Barrier, every interleaving', constants=str(pt), workers=4)
+        design_check(chk, 'PyThreading',
+                     tlc.cfg_text(specification='ESpec', constants={'N': '1', 'G': '1'},
+                                  properties=['InsideWaiterPasses']),
+                     'PyThreading: Event set-then-clear releases the waiter already inside wait()',
+                     workers=2)
+        design_check(chk, 'PyThreading',
+                     tlc.cfg_text(specification='ESpec', constants={'N': '1', 'G': '1'},
+                                  properties=['LateWaiterPasses']),
+                     'PyThreading regression: a waiter arriving after clear() is lost',
+                     expect_violation='temporal', workers=2)
+        from . import selfcheck
+        chk.extra['baton_selfcheck'] = selfcheck.run(seed())
         run_model(chk, 'Table: 4 seats, 1 passed-out board, every interleaving; no deadlock, '
                        'termination under weak fairness',
                   GOOD, [b0], [script_for(*b0, po, 1, r)], 1,
